@@ -70,6 +70,12 @@ def run(ck):
     R8 = ck.rule('R06.8', "reserved keys: only keys of vanished blocks are deleted, never "
                  "'edzed-*' keys; the stop time stamp literal agrees on both sides", 'M0', 3)
 
+    R9 = ck.rule('R06.9', "the saved timer expiry stands for a pending timer only: get_state "
+                 "derives it from _active_timer, which the expiry callback clears before the timed "
+                 "event is delivered (a rejected timed event must not leave a past expiry in the "
+                 "saved state, which a restart would discard as expired)", 'M0', 2)
+    _r06_9(ck, R9)
+
     # ------------------------------------------------------------------ R06.1
     ev = ap.methods.get('event')
     ck.need(R1, ev is not None, "AddonPersistence.event not found")
@@ -545,3 +551,44 @@ def run(ck):
           "the kept keys are those of all blocks with persistent=True" if ok else
           "the set of blocks whose entries are kept is not 'all persistent blocks'", cpd,
           pb[0].ast if pb else cpd.node)
+
+
+def _r06_9(ck, R9):
+    prog = ck.prog
+    fsm = prog.cls('fsm:FSM')
+    gs = prog.resolve_method(fsm, 'get_state')
+    st = fsm.methods.get('_set_timer')
+    ck.need(R9, gs is not None and st is not None, "FSM.get_state / FSM._set_timer not found")
+    reads = any(isinstance(x, ast.Attribute) and x.attr == '_active_timer' for x in own_nodes(gs.node))
+    ck.ob(R9, f"{gs.fid} :: expiry taken from the owned handle", reads,
+          "get_state() reads self._active_timer for the expiry it saves" if reads else
+          "get_state() does not derive the saved expiry from _active_timer", gs, gs.node)
+    g = ck.cfg(st.fid, 'M0')
+    cl = nodes_where(g, lambda n: any(call_name(c) in ('call_later', 'call_at') for c in node_calls(n)))
+    ck.need(R9, len(cl) == 1, "_set_timer: call_later site not recognised")
+    call = [c for c in node_calls(cl[0]) if call_name(c) in ('call_later', 'call_at')][0]
+    cb = call.args[1] if len(call.args) >= 2 else None
+    cbname = cb.attr if isinstance(cb, ast.Attribute) and norm(cb.value) == 'self' else None
+    expiry = prog.resolve_method(fsm, cbname) if cbname and cbname != 'event' else None
+    if expiry is None:
+        guards_past = any(isinstance(x, ast.Call) and call_name(x) == 'time' for x in own_nodes(gs.node)) \
+            and any(isinstance(x, ast.Compare) and 'when()' in norm(x) for x in own_nodes(gs.node))
+        ck.ob(R9, f"{st.fid} :: fired handle not saved as pending", guards_past,
+              "get_state() ignores a handle whose time has passed" if guards_past else
+              "the timer delivers the event directly and nothing clears _active_timer when it "
+              "fires: after a rejected timed event the saved state carries a past expiry and is "
+              "discarded as expired at the next start", st, cl[0].ast)
+        return
+    ge = ck.cfg(expiry.fid, 'M0')
+    clears = [w for w in nodes_writing_attr(ge, '_active_timer')
+              if is_const(written_value(w, '_active_timer'), None)]
+    deliver = nodes_where(ge, lambda n: any(call_name(c) == 'event' and recv(c) == 'self'
+                                            for c in node_calls(n)))
+    ok = bool(clears) and bool(deliver) and \
+        all(ge.path_avoiding(ge.entry, [d], avoid=clears) is None for d in deliver)
+    ck.ob(R9, f"{expiry.fid} :: fired handle not saved as pending", ok,
+          "the handle is cleared before the timed event is delivered: the state saved after that "
+          "event (accepted or rejected) has no stale expiry" if ok else
+          "the fired handle is still set while/after the timed event is handled: the state saved "
+          "by the persistence add-on carries a past expiry (after a rejected timed event it stays "
+          "and the next start discards the state as expired)", expiry, expiry.node)
